@@ -1,5 +1,6 @@
 import SV.Driver.Util
 import SV.Model.Snap
+import SV.Model.SnapTrace
 /-
 svdriver_c08: line protocol for the snapshotter model (`SV/Model/Snap.lean`).
   reset <async><norestore><allow>                         -> ok        (fresh root, new history)
@@ -8,11 +9,108 @@ svdriver_c08: line protocol for the snapshotter model (`SV/Model/Snap.lean`).
              mounts key | remove key | cleanup | walk | stat key | update key lk lv | close |
              restart <async><norestore><allow>
       -> r=<class[:detail]> tr=<backend calls and crash-point markers> ls=<ids>+<#temps> meta=<walk>
+
+TRACE ACCEPTOR for the interleaved model (`SV/Model/SnapConc.lean`, checker `SV/Model/SnapTrace.lean`):
+one line per atomic event of a concurrent run of the real snapshotter; the event must be an enabled
+transition (`SV.Snap.Trace.fire`), and the invariant evaluator `cinvB` must hold afterwards.
+  conc-reset <async><norestore><allow>                     -> ok
+  conc-spawn <i> <op> mf= cf= uf= ord=<dirs|-> <args…>     -> ok        dirs: <id> | t<k> (k-th MkdirTemp of the run)
+  conc-txbegin|rename|txcommit|mount|icommit|tx <i>        -> ok
+  conc-unmount|rmdir <i> <dir>                             -> ok
+  conc-ret <i>                                             -> r=<class[:detail]>   (the model's result of the call)
+  conc-quiesce                                             -> ls=<ids>+<#temps> meta=<walk> mounts=<ids>
+  any of them                                              -> reject <why>  when not enabled / invariant broken
 -/
 namespace SV.Driver.C08
-open SV.Snap SV.Snap.Wire
+open SV.Snap SV.Snap.Wire SV.Snap.Conc SV.Snap.Trace
 
-def step (d : DSt) (ws : List String) : DSt × String := stepCommon d ws
+structure St where
+  d : DSt := {}
+  t : Option TState := none
+
+def pcName : PC → String
+  | .idle _ => "idle" | .crRename .. => "crRename(lock)" | .crCommit .. => "crCommit(lock)"
+  | .prepMount .. => "prepMount" | .prepCommit .. => "prepCommit"
+  | .clean ds u => s!"clean[{ds.length}]{if u then "/unmounted" else ""}" | .done => "done"
+
+def parseDirC? (w : String) : Option Dir :=
+  if w.startsWith "t" then ((w.drop 1).toString.toNat?).map Dir.temp else (w.toNat?).map Dir.id
+
+def parseDirsC? (s : String) : Option (List Dir) := (parseList s).mapM parseDirC?
+
+def setOrder (order : List Dir) : Op → Op
+  | .remove k _ => .remove k order
+  | .cleanup _ => .cleanup order
+  | op => op
+
+def parseEv? (t : TState) : List String → Option Ev
+  | "conc-spawn" :: i :: name :: mf :: cf :: uf :: ord :: args => do
+    let i ← i.toNat?
+    let ord ← parseFlag? "ord=" ord
+    let order ← parseDirsC? ord
+    let (op, orc) ← parseOp? t.c.s (name :: mf :: cf :: uf :: "order=-" :: args)
+    pure (.spawn i (setOrder order op) orc)
+  | ["conc-txbegin", i] => i.toNat?.map .txBegin
+  | ["conc-rename", i] => i.toNat?.map .rename
+  | ["conc-txcommit", i] => i.toNat?.map .txCommit
+  | ["conc-mount", i] => i.toNat?.map .mount
+  | ["conc-icommit", i] => i.toNat?.map .icommit
+  | ["conc-tx", i] => i.toNat?.map .tx
+  | ["conc-unmount", i, d] => do pure (.unmount (← i.toNat?) (← parseDirC? d))
+  | ["conc-rmdir", i, d] => do pure (.rmdir (← i.toNat?) (← parseDirC? d))
+  | ["conc-ret", i] => i.toNat?.map .ret
+  | _ => none
+
+def evThread : Ev → Nat
+  | .spawn i .. => i | .txBegin i => i | .rename i => i | .txCommit i => i | .mount i => i
+  | .icommit i => i | .tx i => i | .unmount i _ => i | .rmdir i _ => i | .ret i => i
+
+def showNats (l : List Nat) : String :=
+  let l := sortBy (fun (a b : Nat) => decide (a < b)) l
+  if l.isEmpty then "-" else ",".intercalate (l.map toString)
+
+def stepConc (s : St) (ws : List String) : St × String :=
+  match ws with
+  | ["conc-reset", cfg] =>
+    match parseCfg? cfg with
+    | some c => ({ s with t := some (tinit c) }, "ok")
+    | none => (s, "bad-op")
+  | ["conc-quiesce"] =>
+    match s.t with
+    | none => (s, "bad-op")
+    | some t =>
+      if (List.range t.n).all (fun j => isDone (t.c.th j)) then
+        (s, s!"ls={showLs t.c.s.dirs} meta={showMeta t.c.s} mounts={showNats t.c.s.mounts}")
+      else (s, "reject quiesce: calls still in flight in the model")
+  | _ =>
+    match s.t with
+    | none => (s, "bad-op")
+    | some t =>
+      match parseEv? t ws with
+      | none => (s, "bad-op")
+      | some ev =>
+        match fire t ev with
+        | none =>
+          let i := evThread ev
+          (s, s!"reject {ws.headD ""} {i}: not an enabled transition (pc={pcName (t.c.th i)} lock={if lockFreeB t then "free" else "held"})")
+        | some t' =>
+          if !cinvB t' then (s, s!"reject {ws.headD ""}: invariant broken after the step: {cinvWhy t'}")
+          else
+            let out := match ev with
+              | .ret i => match t.res i with
+                | some r => "r=" ++ showRes r
+                | none => "r=?"
+              | _ => "ok"
+            ({ s with t := some t' }, out)
+
+def step (s : St) (ws : List String) : St × String :=
+  match ws with
+  | w :: _ =>
+    if w.startsWith "conc-" then stepConc s ws
+    else
+      let (d', out) := stepCommon s.d ws
+      ({ s with d := d' }, out)
+  | [] => (s, "bad-op")
 
 end SV.Driver.C08
 
